@@ -56,6 +56,8 @@ const (
 	lockFile      = ".lock"
 	versionFile   = "version"
 	versionString = "Acra Keystore v2"
+	// suffix of the temporary name under which a new version file is written
+	newVersionSuffix = ".new"
 )
 
 // CreateDirectoryBackend opens a directory backend at given root path.
@@ -179,34 +181,55 @@ func checkVersionFile(rootDir string) error {
 		return nil
 	}
 	if !os.IsNotExist(err) {
-		return err
+		// A version file holding a strict prefix of the version string is what an interrupted
+		// creation leaves behind (the file used to be written in place). It cannot belong
+		// to any other keystore version, so write it again instead of refusing the directory forever.
+		if err != ErrInvalidVersion || !versionFileIsTorn(rootDir) {
+			return err
+		}
 	}
 	return createVersionFile(rootDir)
 }
 
+// versionFileIsTorn tells whether the version file holds a strict prefix of the expected content.
+func versionFileIsTorn(rootDir string) bool {
+	content, err := ioutil.ReadFile(versionFilePath(rootDir))
+	if err != nil {
+		return false
+	}
+	return len(content) < len(versionString) && strings.HasPrefix(versionString, string(content))
+}
+
+// createVersionFile writes the complete version file under a temporary name and then renames it,
+// so that a crash or an I/O error never leaves a partially written version file behind.
 func createVersionFile(rootDir string) (err error) {
 	path := versionFilePath(rootDir)
-	// Make sure the file does not exist and create it with proper mode.
-	file, err := os.OpenFile(path, os.O_CREATE|os.O_EXCL|os.O_WRONLY, versionPerm)
+	file, err := ioutil.TempFile(rootDir, versionFile+newVersionSuffix)
 	if err != nil {
 		return err
 	}
-	// Close() might fail for newly written files, make sure we don't lose this error.
+	tmpPath := file.Name()
 	defer func() {
-		err2 := file.Close()
-		if err == nil {
-			err = err2
+		if err != nil {
+			os.Remove(tmpPath)
 		}
 	}()
 	_, err = file.WriteString(versionString)
+	if err == nil {
+		err = file.Chmod(versionPerm)
+	}
+	if err == nil {
+		err = file.Sync()
+	}
+	// Close() might fail for newly written files, make sure we don't lose this error.
+	err2 := file.Close()
+	if err == nil {
+		err = err2
+	}
 	if err != nil {
 		return err
 	}
-	err = file.Sync()
-	if err != nil {
-		return err
-	}
-	return nil
+	return os.Rename(tmpPath, path)
 }
 
 // Close this backend instance, freeing any associated resources.
@@ -369,6 +392,10 @@ func (b *DirectoryBackend) ListAll() ([]string, error) {
 		path = strings.TrimPrefix(path, b.root+string(os.PathSeparator))
 		// Skip special bookkeeping files that we have.
 		if path == lockFile || path == versionFile {
+			return nil
+		}
+		// Skip temporaries of the version file left behind by an interrupted creation.
+		if strings.HasPrefix(path, versionFile+newVersionSuffix) && !strings.Contains(path, string(os.PathSeparator)) {
 			return nil
 		}
 		// Skip intermediate directories too.
